@@ -171,6 +171,19 @@ def parseCutoff? (s : String) : Option (Option Rat) := if s == "inf" then some n
 def showF (f : Int × Int × Int) : String := s!"{f.1},{f.2.1},{f.2.2}"
 def showV (v : V3) : String := showRat v.1 ++ "," ++ showRat v.2.1 ++ "," ++ showRat v.2.2
 
+/-- `withinbasis <cell> <pbc> <basis> <origin> <tol> <mask abc as 0/1> <positions>` — get_positions_within_basis -/
+def opWithinBasis (args : List String) : String :=
+  open Matid.WithinBasis in
+  match args with
+  | [cs, ps, bs, os, ts, ms, pos] =>
+    match parseCell? cs, parsePbc? ps, parseCell? bs, parseV3s? os, parseRat? ts, ms.toList, parseV3s? pos with
+    | some c, some p, some b, some [o], some tol, [ma, mb, mc], some positions =>
+      match positionsWithinBasis positions c p b o tol { a := ma == '1', b := mb == '1', c := mc == '1' } with
+      | none => "singular"
+      | some l => if l.isEmpty then "-" else ";".intercalate (l.map fun f => toString f.index ++ ":" ++ showF f.factor ++ ":" ++ showV f.rel)
+    | _, _, _, _, _, _, _ => "bad-op"
+  | _ => "bad-op"
+
 /-- `extend <cell> <pbc> <cutoff> <positions>` -/
 def opExtend (args : List String) : String :=
   match args with
@@ -500,6 +513,7 @@ def step (line : String) : String :=
   | "sets" :: args => opSets args
   | "idstring" :: args => opIdString args
   | "extend" :: args => opExtend args
+  | "withinbasis" :: args => opWithinBasis args
   | "query" :: args => opQuery args
   | "disp" :: args => opDisp args
   | "match" :: args => opMatch args
